@@ -111,10 +111,10 @@ async def settle(n: int = 6):
         await asyncio.sleep(0)
 
 
-async def plain_request(factory, line: bytes, der: bytes | None = None) -> tuple[bytes, bool]:
+async def plain_request(factory, line: bytes, der: bytes | None = None, peer=("192.0.2.1", 4711)) -> tuple[bytes, bool]:
     """one request line through a protocol made by `factory` on a fake (already 'TLS-terminated') transport"""
     p = factory()
-    tr = FakeTransport(der)
+    tr = FakeTransport(der, peer)
     p.connection_made(tr)
     try:
         p.data_received(line)
